@@ -13,6 +13,8 @@ from tiv.mutate import M
 from tiv.sem import trace, same_bool, expand
 
 RULES = {
+    "MEMO": "memo safety (shared, rules/common.py): a memoised function in this property's files (or called from them) is a function of its "
+            "arguments only (no terminal/ambient/receiver state outside the key) and no caller mutates its result in place",
     "R1": "synchronized-update bracket: draw_screen writes BEGIN_SYNCED_UPDATE immediately before a try whose finally writes END_SYNCED_UPDATE and "
           "flushes; every other output effect of the method (image deletion, super().draw_screen) is inside that try",
     "R2": "delete before draw: _ti_clear_images() runs before super().draw_screen() when the canvas changed; its deletions go through the buffered "
@@ -214,6 +216,9 @@ def run(ck, m):
     for s in scr.body:
         if isinstance(s, ast.FunctionDef) and s.name in ("draw_screen", "flush", "get_available_raw_input", "write"):
             ck.ob("R6", s, any((dotted(d) or "") == "lock_tty" for d in s.decorator_list), f"UrwidImageScreen.{s.name} must be decorated with lock_tty", stmt=f"UrwidImageScreen.{s.name}: @lock_tty")
+
+    from rules.common import rule_memo_safety
+    rule_memo_safety(ck, m, "MEMO", "C18")
 
 
 MUTANTS = [
